@@ -56,7 +56,7 @@ func (e *Engine) Unit(c *Case, lang string) *LUnit {
 }
 
 func (u *LUnit) object(name string) (ast.Object, bool) {
-	return u.IR.Ctx.LocateObject(gschema.Pkg, name)
+	return u.IR.Ctx.LocateObject(u.C.PkgName(), name)
 }
 
 func refName(a string) string { return strings.TrimPrefix(a, gschema.Pkg+".") }
@@ -93,7 +93,7 @@ func (u *LUnit) bindType(it ast.Type, t gschema.Term, depth int) {
 	switch t.K {
 	case "struct":
 		st := it
-		if it.IsRef() && it.AsRef().ReferredPkg == gschema.Pkg {
+		if it.IsRef() && it.AsRef().ReferredPkg == u.C.PkgName() {
 			name := it.AsRef().ReferredType
 			if _, named := u.C.Schema.Lookup(name); named {
 				return
@@ -117,7 +117,7 @@ func (u *LUnit) bindType(it ast.Type, t gschema.Term, depth int) {
 			}
 		}
 	case "disj":
-		if it.IsRef() && it.AsRef().ReferredPkg == gschema.Pkg {
+		if it.IsRef() && it.AsRef().ReferredPkg == u.C.PkgName() {
 			name := it.AsRef().ReferredType
 			if _, named := u.C.Schema.Lookup(name); !named {
 				if _, done := u.ObjTerm[name]; !done {
@@ -140,7 +140,7 @@ func (u *LUnit) bindType(it ast.Type, t gschema.Term, depth int) {
 func (u *LUnit) Builders() []ast.Builder {
 	var out []ast.Builder
 	for _, b := range u.IR.Ctx.Builders {
-		if b.Package == gschema.Pkg {
+		if b.Package == u.C.PkgName() {
 			out = append(out, b)
 		}
 	}
@@ -334,7 +334,7 @@ func (u *LUnit) validators(t gschema.Term, strip bool) map[string]gschema.Valida
 			objs[i].T = stripConstr(objs[i].T)
 		}
 	}
-	v, _ = gschema.Schema{Objs: objs}.Validators()
+	v = u.C.ValidatorsOf(gschema.Schema{Objs: objs})
 	u.mu.Lock()
 	u.valid[key] = v
 	u.mu.Unlock()
@@ -376,7 +376,7 @@ func leaf(v any) map[string]any { return map[string]any{"j": Text(v)} }
 
 func (u *LUnit) builderKey(name string) string {
 	if u.Lang == "go" {
-		return u.C.Unit.ID + "." + name
+		return u.C.Key() + "." + name
 	}
 	return name
 }
@@ -447,7 +447,7 @@ func (u *LUnit) Spec(it ast.Type, t gschema.Term, v any, depth int) (spec any, u
 		if ok && obj.Type.IsRef() { // alias of a struct
 			return u.Spec(obj.Type, t, v, depth+1)
 		}
-		b, ok := u.IR.Builder(name)
+		b, ok := u.IR.BuilderIn(u.C.PkgName(), name)
 		if !ok {
 			return nil, false, ErrInexpressible{"no builder named " + name}
 		}
@@ -721,12 +721,12 @@ func (u *LUnit) DefaultOf(name string) any {
 	}
 	var text string
 	if u.Lang == "go" {
-		resp, died := u.E.P.Driver.Do(map[string]any{"op": "default", "type": u.C.Unit.ID + "." + GoName(name)})
+		resp, died := u.E.P.Driver.Do(map[string]any{"op": "default", "type": u.C.Key() + "." + GoName(name)})
 		if !died {
 			text, _ = resp["json"].(string)
 		}
 	} else if u.E.Py != nil {
-		resp, died := u.E.Py.Do(map[string]any{"op": "default", "unit": u.C.Unit.ID, "class": name})
+		resp, died := u.E.Py.Do(map[string]any{"op": "default", "unit": u.C.Unit.ID, "pkg": u.C.PkgName(), "class": name})
 		if !died {
 			text, _ = resp["json"].(string)
 		}
@@ -906,7 +906,7 @@ func echoDiff(spec, echo any) string {
 }
 
 func (u *LUnit) runPy(spec map[string]any) Outcome {
-	resp, died := u.E.Py.Do(map[string]any{"op": "bld", "unit": u.C.Unit.ID, "spec": spec})
+	resp, died := u.E.Py.Do(map[string]any{"op": "bld", "unit": u.C.Unit.ID, "pkg": u.C.PkgName(), "spec": spec})
 	if died {
 		return Outcome{Died: true}
 	}
